@@ -32,6 +32,11 @@ Section ExtSort.
 
   Definition spill_sort (threshold : nat) (cs : list (list A)) : list A :=
     sfinish (fold_left (spush threshold) cs sst0).
+  (** before 2824ade (unstable merge) *)
+  Definition sfinish_pre (s : sst) : list A :=
+    if ss_ext s then merge_all_pre cmp (ss_runs s) (ss_buf s) else isort cmp (ss_buf s).
+  Definition spill_sort_pre (threshold : nat) (cs : list (list A)) : list A :=
+    sfinish_pre (fold_left (spush threshold) cs sst0).
 
   (** the runs an execution produces (for the finding class) *)
   Definition spill_runs (threshold : nat) (cs : list (list A)) : list (list A) :=
@@ -57,7 +62,7 @@ Inductive fop :=
 | FPartSpill           (* PartitionedState::spill_partition of a non-empty partition: create_file *)
 | FPartReload          (* get_partition_mut on a spilled partition: load, then delete its file *)
 | FPartDrain           (* drain_all: reload everything, delete remaining files *)
-| FPartCleanup         (* PartitionedState::cleanup or drop: forgets its files WITHOUT deleting them *)
+| FPartCleanup         (* PartitionedState::cleanup or drop: deletes the files of its spilled partitions (5457c98) *)
 | FMgrCleanup.         (* SpillManager::cleanup / drop *)
 
 (** state: manager, files owned by the external sort, files owned by the partitioned state *)
@@ -74,18 +79,25 @@ Definition fstep (s : fstate) (o : fop) : fstate :=
                    | i :: r => {| f_mgr := delete_file (f_mgr s) i; f_sort := f_sort s; f_part := r |}
                    end
   | FPartDrain => {| f_mgr := fold_left delete_file (f_part s) (f_mgr s); f_sort := f_sort s; f_part := [] |}
-  | FPartCleanup => {| f_mgr := f_mgr s; f_sort := f_sort s; f_part := [] |}
+  | FPartCleanup => {| f_mgr := fold_left delete_file (f_part s) (f_mgr s); f_sort := f_sort s; f_part := [] |}
   | FMgrCleanup => {| f_mgr := mgr_cleanup (f_mgr s); f_sort := f_sort s; f_part := f_part s |}
   end.
 Definition frun (ops : list fop) : fstate := fold_left fstep ops fstate0.
+(** before 5457c98 PartitionedState::cleanup / drop forgot its files WITHOUT deleting them (finding C17-K6) *)
+Definition fstep_pre (s : fstate) (o : fop) : fstate :=
+  match o with
+  | FPartCleanup => {| f_mgr := f_mgr s; f_sort := f_sort s; f_part := [] |}
+  | _ => fstep s o
+  end.
+Definition frun_pre (ops : list fop) : fstate := fold_left fstep_pre ops fstate0.
 Definition disk_count (s : fstate) : nat := length (g_disk (f_mgr s)).
 Definition active_count (s : fstate) : nat := length (g_active (f_mgr s)).
-(** finding class C17-K6: a PartitionedState is cleaned up / dropped while partitions are on disk *)
+(** finding class C17-K6 (before 5457c98): a PartitionedState is cleaned up / dropped while partitions are on disk *)
 Fixpoint k_part_cleanup_leaves (s : fstate) (ops : list fop) : bool :=
   match ops with
   | [] => false
   | o :: r => (match o with FPartCleanup => negb (match f_part s with [] => true | _ => false end) | _ => false end)
-              || k_part_cleanup_leaves (fstep s o) r
+              || k_part_cleanup_leaves (fstep_pre s o) r
   end.
 
 (** ** hash partitioning (PartitionedState): the partition of a key is [hash_key(key) % n]; the hash
